@@ -237,11 +237,57 @@ def check_restore(template):
     return None
 
 
+# --- the python: switch as the server applies it (handlers/tal.py), along histories of configurations -------------
+
+GATE_SETTINGS = ["true", "absent", "false", "no", "0"]
+
+
+def check_gate_history(hist):
+    """Serve the same TAL page under a sequence of configurations in ONE process; whenever
+    the configuration in force disables Python paths the expression must not run."""
+    import os
+
+    base = rig.fresh_dir("c18g")
+    canary = os.path.join(base, "canary")
+    tpl = ('<html><body><p tal:content="python: open(%r, \'a\').write(\'x\')">x</p><i tal:condition="python: open(%r, \'a\').write(\'y\')">y</i></body></html>\n' % (canary, canary)).encode()
+    bad = None
+    try:
+        for step, setting in enumerate(hist):
+            over = {} if setting == "absent" else {"handlers_DOT_tal_DOT_TALFileHandler__allowpythonpath": setting}
+            w = rig.World({"t.html.tal": tpl}, handlers="full", cachetime=0, tag="c18w", **over)
+            try:
+                size0 = os.path.getsize(canary) if os.path.exists(canary) else 0
+                r = w.serve(*rig.request("gopher", "/t.html.tal"))
+                size1 = os.path.getsize(canary) if os.path.exists(canary) else 0
+            finally:
+                w.destroy()
+            if r.internal_error:
+                bad = ("error", "%s under allowpythonpath=%s" % (r.describe_error(), setting))
+                break
+            disabled = setting in ("false", "no", "0")
+            if disabled and size1 != size0:
+                bad = ("python-evaluated", "configuration history %r: with allowpythonpath=%s (step %d) the python: expressions of the page were evaluated" % (list(hist), setting, step))
+                break
+            if not disabled and size1 == size0:
+                bad = ("gate-not-biting", "with allowpythonpath=%s the expression did not run: the test proves nothing" % setting)
+                break
+    finally:
+        rig.rmtree(base)
+    return bad
+
+
 def _shard(shard, seed, tier):
     part = core.Partial()
     kind, items = shard
     for item in items:
-        if kind == "esc":
+        if kind == "gate":
+            bad = check_gate_history(item)
+            part.state("gate", item)
+            part.outcome("gate", item[-1], bad[0] if bad else "")
+            key = "gate|%s" % ">".join(item)
+            case = {"kind": "gate", "hist": list(item)}
+            part.sample({"allowpythonpath_history": list(item)}, limit=1)
+        elif kind == "esc":
             idx, p = item
             bad = check_escape(idx, p)
             part.state("esc", idx, p)
@@ -285,6 +331,8 @@ def replay(case):
         return check_python(case["idx"])[0]
     if case["kind"] == "doc":
         return check_doc(case["doc"])
+    if case["kind"] == "gate":
+        return check_gate_history(tuple(case["hist"]))
     return check_restore(case["template"])
 
 
@@ -295,13 +343,14 @@ def run(ck):
     ctx_t = list(dict.fromkeys(c17.single_templates(ck.tier) + c17.nested_templates(ck.tier) + c17.metal_templates()))
     if ck.tier == "quick":
         ctx_t = ctx_t[::3] + c17.nested_templates(ck.tier) + c17.metal_templates()
-    shards = [("esc", ch) for ch in core.chunks(esc, core.NPROC)] + [("py", list(range(len(PY_POSITIONS))))] + [("doc", ch) for ch in core.chunks(dl, core.NPROC)] + [("ctx", ch) for ch in core.chunks(ctx_t, core.NPROC * 2)]
+    gates = [h for n in (1, 2, 3) for h in itertools.product(GATE_SETTINGS[:3] if n == 3 else GATE_SETTINGS, repeat=n)]
+    shards = [("gate", ch) for ch in core.chunks(gates, 8)] + [("esc", ch) for ch in core.chunks(esc, core.NPROC)] + [("py", list(range(len(PY_POSITIONS))))] + [("doc", ch) for ch in core.chunks(dl, core.NPROC)] + [("ctx", ch) for ch in core.chunks(ctx_t, core.NPROC * 2)]
     p = ck.pmap(_shard, shards)
     nb = p.extra.get("python_positions_not_biting", 0)
     if nb:
         ck.notes.append("%d python: positions were not evaluated even with Python paths enabled (they prove nothing about the gate)" % nb)
     ck.rule = ("(1) %d escaping templates x all values of <= %d characters over %r; (2) %d positions of a python: expression with a side-effect canary, Python paths off and on; (3) %d TAL-free documents from a grammar of %d leaves x %d wrappers, pairs and three-deep nestings; "
-               "(4) context snapshot before/after %d templates of the C17 families; distinct = (part, template/position, verdict)" % (len(ESC_TEMPLATES), 3 if ck.tier == "thorough" else 2, META, len(PY_POSITIONS), len(dl), len(DOC_LEAVES), len(DOC_WRAPS), len(ctx_t)))
+               "(4) context snapshot before/after %d templates of the C17 families; (5) a TAL page with side-effecting python: expressions served by the real server under every history of <= 3 allowpythonpath settings in one process; distinct = (part, template/position, verdict)" % (len(ESC_TEMPLATES), 3 if ck.tier == "thorough" else 2, META, len(PY_POSITIONS), len(dl), len(DOC_LEAVES), len(DOC_WRAPS), len(ctx_t)))
     ck.bounds = {"payload_length": 3 if ck.tier == "thorough" else 2, "documents": len(dl), "context_templates": len(ctx_t)}
     ck.assumptions = ["HTML boolean attributes x and x=\"x\" are equivalent; element and attribute names are case-insensitive; the engine-owned builtin 'attrs' is not a caller variable",
                       "templates asking for `structure` are expanded and counted but not judged for injected markup"]
